@@ -1271,6 +1271,10 @@ class Models:
                 return t
         if hasattr(v, 't') and v.t.sort() == sort:
             return v.t
+        if isinstance(v, VPV) and sort == so.S and st.entails(
+                so.PV.is_pv_Str(v.t)):
+            # an Optional[str] known on this path to be a str
+            return so.PV.pv_s(v.t)
         for p in self.plugins:
             if hasattr(p, 'to_term'):
                 t = p.to_term(eng, v, sort, st)
